@@ -53,15 +53,16 @@ Definition fa (b : block) : N * N := (b_frame b, b_atropos b).
 
 Section Elect.
 Variable cap : nat.
+Variable ep : N.
 Variable lam : fev -> N.
 Variable vals : list (N * N).
 Hypothesis Hvals : vals_ok vals.
 Variable T : list node.
 Variable Dr : list fev.
 Variable es : estore.
-Variable k : N.
+Variable k : N -> Prop.       (* keys of forkless-cause cache entries that may be stale *)
 Hypothesis Hff : few_forkers vals T.
-Hypothesis NT : forall m, In m T -> ~ is_temp k (nd_id m).
+Hypothesis NT : forall m, In m T -> ~ k (nd_id m).
 Hypothesis HwfTD : wfTD vals T Dr.
 
 Notation ws := (map snd vals).
@@ -70,10 +71,10 @@ Notation q := (ElectionSpec.quorum_of ws).
 Notation fcn := (fc_n ws q).
 Notation rts := (roots_at node nd_fr nd_spf T).
 Notation slot := (slot vals).
-Notation Core := (Core lam vals).
+Notation Core := (Core ep lam vals).
 Notation cache_inv := (cache_inv vals).
 Notation EI := (EI vals T).
-Notation eb := (policy_fn []).
+
 Notation decideT f := (decide node nd_id nd_cr nd_fr nd_spf fcn ws q (canon_order vals) T f (max_frame node nd_fr T)).
 
 Let HwfT : wfT vals T := wfTD_wfT vals T Dr HwfTD.
@@ -127,7 +128,7 @@ Proof.
     eapply EI_weaken; [exact I|]. intros r [H|[m [[] _]]]. exact H.
   - destruct E as [C CI I N].
     assert (F0 : 1 <= l_ldf st + 1) by lia.
-    destruct (process_root_sim cap lam vals Hvals T HwfT Hff (l_ldf st + 1) F0 st es Dr k S m g C CI NT I N
+    destruct (process_root_sim cap ep lam vals Hvals T HwfT Hff (l_ldf st + 1) F0 st es Dr k S m g C CI NT I N
                 (Hms m (or_introl eq_refl))) as [res [c1 [el1 [EP [CI1 [I1 [ER Sh]]]]]]].
     { intros H2 m' Hm' _. apply Hprev; auto. }
     fold (st_with st c1 el1) in EP, CI1. rewrite EP.
@@ -158,7 +159,7 @@ Lemma pkr_sim : forall fuel st g S, ES st S -> (cnt_from (l_roots st) g < fuel)%
      (exists a, res = Ok (Some (l_ldf st + 1, a)) /\ decideT (l_ldf st + 1) = Atropos a)).
 Proof.
   induction fuel as [|fu IH]; intros st g S E Hfuel Hg Hpre; [lia|]. cbn [process_known_roots].
-  destruct (frame_roots_for lam vals st es T Dr T g (es_core _ _ E)) as [ms [_ [Hms [Ems _]]]].
+  destruct (frame_roots_for ep lam vals st es T Dr T g (es_core _ _ E)) as [ms [_ [Hms [Ems _]]]].
   rewrite Ems.
   destruct (pkr_frame_sim g ms st S E (fun m H => proj1 (Hms m) H)) as [res [c1 [el1 [EP [CI1 R1]]]]].
   { intros H2 m Hm. apply Hpre; [lia | exact Hm]. }
@@ -188,28 +189,6 @@ Proof.
   - exists (Ok (Some (l_ldf st + 1, a))), c1, el1. split; [reflexivity|]. split; [exact CI1|]. right. eauto.
 Qed.
 
-(* ---------- onFrameDecided ---------- *)
-Lemma ofd_sim st a f : Core st es T Dr T -> In a T -> f <> 0 ->
-  exists blk conf', on_frame_decided eb es st f (nd_id a) = (Ok (false, blk), decided_state st f conf') /\
-    blk_obs blk = (f, nd_id a, ElectionSpec.cheaters_of vals T (nd_id a)) /\ b_seal blk = None.
-Proof.
-  intros C Ha Hf. unfold on_frame_decided, apply_atropos.
-  assert (K : forall x, In x (ids_of Dr) -> exists ev, get_event es x = Some ev /\ forall p, In p (a_parents ev) -> In p (ids_of Dr)).
-  { intros x Hx. unfold ids_of in Hx. apply in_map_iff in Hx as [e [<- He]].
-    exists (to_aevent lam vals e). split.
-    { apply (co_es _ _ _ _ _ _ _ C); [exact He|]. destruct (event_node vals T Dr e HwfTD He) as [m [Hm [Em _]]]. exists m. auto. }
-    cbn [to_aevent a_parents]. intros p Hp. eapply (wfTD_parents vals T Dr HwfTD); eauto. }
-  assert (Hs : forall x, In x [nd_id a] -> In x (ids_of Dr)).
-  { intros x [<-|[]]. destruct (node_event vals T Dr a HwfTD Ha) as [e [He [E _]]].
-    unfold ids_of. apply in_map_iff. exists e. auto. }
-  destruct (dfs_no_crit es f _ K (confirm_fuel es) [nd_id a] (l_conf st) [] Hs) as [[[dl conf'] E]|E].
-  2:{ exfalso. exact (confirm_never_out_of_fuel es f (nd_id a) (l_conf st) Hf E). }
-  rewrite E. cbn [b_seal policy_fn find]. exists {| b_frame := f; b_atropos := nd_id a; b_cheaters := Abft.cheaters_of st (nd_id a);
-             b_delivered := dl; b_seal := None |}, conf'.
-  split; [reflexivity|]. split; [|reflexivity]. unfold blk_obs. cbn [b_frame b_atropos b_cheaters].
-  rewrite (cheaters_sim lam vals Hvals st es T Dr T a C Ha). reflexivity.
-Qed.
-
 Lemma choose_reset f : (0 < nv)%nat -> choose_atropos (el_reset vals f) = Ok None.
 Proof. intros H. unfold choose_atropos, el_reset. cbn [el_vals el_decided el_frame]. destruct vals as [|[x w] t]; [cbn in H; lia | reflexivity]. Qed.
 
@@ -230,6 +209,9 @@ Inductive Seg : N -> list (N * N) -> N -> Prop :=
 Lemma Seg_app L0 B1 L1 B2 L2 : Seg L0 B1 L1 -> Seg L1 B2 L2 -> Seg L0 (B1 ++ B2) L2.
 Proof. induction 1; intros H2; cbn [app]; [exact H2 | constructor; auto]. Qed.
 
+Lemma Seg_le L B L1 : Seg L B L1 -> L <= L1.
+Proof. induction 1; lia. Qed.
+
 Lemma atropos_in f a : decideT f = Atropos a -> exists x, In x (rts f) /\ nd_id x = a.
 Proof.
   intros H. apply (decide_sound node nd_id nd_cr nd_fr nd_spf fcn ws q (canon_order vals) T f (wf_inj vals T HwfT)) in H
@@ -238,19 +220,83 @@ Proof.
 Qed.
 
 Definition Done (st : lstate) : Prop := exists S, ES st S /\ all_voted (l_ldf st + 1) S.
-Definition blocks_ok (bl : list block) : Prop :=
-  forall b, In b bl -> b_cheaters b = ElectionSpec.cheaters_of vals T (b_atropos b) /\ b_seal b = None.
-
 Lemma root_at_frame st x f : Core st es T Dr T -> In x (rts f) -> exists r, In r (l_roots st) /\ r_frame r = f.
 Proof.
-  intros C Hx. exists (slot x f). split; [|reflexivity]. apply (co_roots _ _ _ _ _ _ _ C). exists x, f.
+  intros C Hx. exists (slot x f). split; [|reflexivity]. apply (co_roots _ _ _ _ _ _ _ _ C). exists x, f.
   unfold roots_at in Hx. apply filter_In in Hx. destruct Hx. auto.
+Qed.
+
+(* when every slot has voted and no Atropos is chosen, the reference has none either *)
+Lemma Done_undecided st : Done st -> forall a, decideT (l_ldf st + 1) <> Atropos a.
+Proof.
+  intros [S [[C CI I Nn] AV]].
+  assert (F0 : 1 <= l_ldf st + 1) by lia.
+  apply (choose_none_undecided vals Hvals T HwfT Hff (l_ldf st + 1) F0 (l_el st) S I Nn). exact AV.
+Qed.
+
+
+(* the application's EndBlock callback: in the current epoch it seals exactly at the frames f with sf f = Some _ *)
+Variable eb : N -> N -> N -> list N -> list N -> option Abft.vals.
+Variable sf : N -> option Abft.vals.
+Hypothesis Heb : forall f a ch dl, eb ep f a ch dl = sf f.
+
+(* ---------- onFrameDecided ---------- *)
+(* the state after a sealing block: Orderer.Reset to the next epoch with the returned validators *)
+Definition sealed_state (nv' : Abft.vals) (ctr : N) : lstate :=
+  {| l_epoch := ep + 1; l_vals := nv'; l_ldf := 0; l_roots := []; l_conf := []; l_idx := init (length nv');
+     l_fcc := []; l_el := el_reset nv' 1; l_ctr := ctr |}.
+
+Lemma ofd_sim st a f : Core st es T Dr T -> In a T -> f <> 0 ->
+  exists blk, blk_obs blk = (f, nd_id a, ElectionSpec.cheaters_of vals T (nd_id a)) /\ b_seal blk = sf f /\
+    match sf f with
+    | None => exists conf', on_frame_decided eb es st f (nd_id a) = (Ok (false, blk), decided_state st f conf')
+    | Some nv' => on_frame_decided eb es st f (nd_id a) = (Ok (true, blk), sealed_state nv' (l_ctr st))
+    end.
+Proof.
+  intros C Ha Hf. unfold on_frame_decided, apply_atropos.
+  assert (K : forall x, In x (ids_of Dr) -> exists ev, get_event es x = Some ev /\ forall p, In p (a_parents ev) -> In p (ids_of Dr)).
+  { intros x Hx. unfold ids_of in Hx. apply in_map_iff in Hx as [e [<- He]].
+    exists (to_aevent ep lam vals e). split.
+    { apply (co_es _ _ _ _ _ _ _ _ C); [exact He|]. destruct (event_node vals T Dr e HwfTD He) as [m [Hm [Em _]]]. exists m. auto. }
+    cbn [to_aevent a_parents]. intros p Hp. eapply (wfTD_parents vals T Dr HwfTD); eauto. }
+  assert (Hs : forall x, In x [nd_id a] -> In x (ids_of Dr)).
+  { intros x [<-|[]]. destruct (node_event vals T Dr a HwfTD Ha) as [e [He [E _]]].
+    unfold ids_of. apply in_map_iff. exists e. auto. }
+  destruct (dfs_no_crit es f _ K (confirm_fuel es) [nd_id a] (l_conf st) [] Hs) as [[[dl conf'] E]|E].
+  2:{ exfalso. exact (confirm_never_out_of_fuel es f (nd_id a) (l_conf st) Hf E). }
+  rewrite E. cbn [b_seal]. rewrite (co_epoch _ _ _ _ _ _ _ _ C), Heb.
+  exists {| b_frame := f; b_atropos := nd_id a; b_cheaters := Abft.cheaters_of st (nd_id a); b_delivered := dl; b_seal := sf f |}.
+  split; [|split; [reflexivity|]].
+  - unfold blk_obs. cbn [b_frame b_atropos b_cheaters]. rewrite (cheaters_sim ep lam vals Hvals st es T Dr T a C Ha). reflexivity.
+  - destruct (sf f) as [nv'|]; [|exists conf'; reflexivity].
+    cbn [l_epoch l_ctr set_conf]. rewrite (co_epoch _ _ _ _ _ _ _ _ C). reflexivity.
+Qed.
+
+Definition blocks_ok (bl : list block) : Prop :=
+  forall b, In b bl -> b_cheaters b = ElectionSpec.cheaters_of vals T (b_atropos b) /\ b_seal b = sf (b_frame b).
+(* no frame in (L, L1] seals *)
+Definition NoSeal (L L1 : N) : Prop := forall f, L < f <= L1 -> sf f = None.
+(* how a call ends: the election goes on in the same epoch (nothing sealed, every slot has voted), or the
+   last block (frame L) sealed the epoch and the instance was reset *)
+Definition Ends (st : lstate) (L : N) (st' : lstate) : Prop :=
+  (Done st' /\ L = l_ldf st' /\ NoSeal (l_ldf st) L /\ l_roots st' = l_roots st /\ l_ctr st' = l_ctr st) \/
+  (exists nv', l_ldf st < L /\ NoSeal (l_ldf st) (L - 1) /\ sf L = Some nv' /\ st' = sealed_state nv' (l_ctr st)).
+Definition is_cont (st' : lstate) (L : N) (st : lstate) := Done st' /\ L = l_ldf st'.
+
+Lemma Ends_shift st st2 L st' : l_ldf st2 = l_ldf st + 1 -> sf (l_ldf st + 1) = None ->
+  l_roots st2 = l_roots st -> l_ctr st2 = l_ctr st -> Ends st2 L st' -> Ends st L st'.
+Proof.
+  intros E1 Hn ER EC [(D & EL & NS & R & C)|(nv' & Lt & NS & Sf & ES')].
+  - unfold Ends. left. split; [exact D|]. split; [exact EL|]. split; [|split; congruence].
+    intros f Hf. destruct (N.eq_dec f (l_ldf st + 1)) as [->|NE]; [exact Hn | apply NS; lia].
+  - unfold Ends. right. exists nv'. split; [lia|]. split; [|split; [exact Sf | rewrite ES', EC; reflexivity]].
+    intros f Hf. destruct (N.eq_dec f (l_ldf st + 1)) as [->|NE]; [exact Hn | apply NS; lia].
 Qed.
 
 (* ---------- bootstrapElection ---------- *)
 Lemma boot_sim : forall fuel st S bl0, ES st S -> (cnt_from (l_roots st) (l_ldf st + 1) < fuel)%nat -> (0 < nv)%nat ->
-  exists bl st', bootstrap_election cap eb fuel es st bl0 = (Ok false, bl0 ++ bl, st') /\ Done st' /\
-    Seg (l_ldf st) (map fa bl) (l_ldf st') /\ blocks_ok bl /\ l_roots st' = l_roots st /\ l_ctr st' = l_ctr st.
+  exists r bl st' L, bootstrap_election cap eb fuel es st bl0 = (Ok r, bl0 ++ bl, st') /\
+    Seg (l_ldf st) (map fa bl) L /\ blocks_ok bl /\ Ends st L st' /\ (r = false <-> Done st' /\ L = l_ldf st' /\ l_epoch st' = ep).
 Proof.
   induction fuel as [|fu IH]; intros st S bl0 E Hfuel Hnv; [lia|]. cbn [bootstrap_election].
   destruct (pkr_sim (roots_fuel st) st (l_ldf st + 1) S E) as [res [c1 [el1 [EP [CI1 R1]]]]].
@@ -258,58 +304,68 @@ Proof.
   { lia. }
   { intros m g' Hg'. lia. }
   rewrite EP. destruct R1 as [[-> [S' [E1 AV]]]|[a [-> Hd]]].
-  - exists [], (st_with st c1 el1). rewrite app_nil_r. split; [reflexivity|]. split; [exists S'; auto|].
-    split; [constructor|]. split; [intros b []|]. split; reflexivity.
+  - exists false, [], (st_with st c1 el1), (l_ldf st). rewrite app_nil_r. split; [reflexivity|]. split; [constructor|].
+    split; [intros b []|].
+    assert (Dn : Done (st_with st c1 el1)) by (exists S'; auto).
+    split; [unfold Ends; left; split; [exact Dn|]; split; [reflexivity|]; split; [intros f Hf; lia | split; reflexivity]|].
+    split; [intros _|reflexivity]. split; [exact Dn|]. split; [reflexivity|]. apply (co_epoch _ _ _ _ _ _ _ _ (es_core _ _ E1)).
   - destruct (atropos_in _ _ Hd) as [x [Ix Ex]]. subst a.
     assert (C1 : Core (st_with st c1 el1) es T Dr T) by (unfold st_with; apply Core_el, Core_fcc, (es_core _ _ E)).
-    destruct (ofd_sim (st_with st c1 el1) x (l_ldf st + 1) C1 (roots_in _ _ _ _ _ _ Ix) ltac:(lia)) as [blk [conf' [EO [OB SL]]]].
-    rewrite EO.
-    set (st2 := decided_state (st_with st c1 el1) (l_ldf st + 1) conf').
-    assert (E2 : ES st2 (fun _ => False)).
-    { apply (ES_decided (st_with st c1 el1) conf' C1 CI1 Hnv). }
-    destruct (IH st2 _ (bl0 ++ [blk]) E2) as [bl [st' [EB [D' [SG [BO [RR CC]]]]]]].
-    { change (l_roots st2) with (l_roots st). change (l_ldf st2) with (l_ldf st + 1).
-      destruct (root_at_frame st x (l_ldf st + 1) (es_core _ _ E) Ix) as [r [Hr Fr]].
-      pose proof (cnt_from_step (l_roots st) (l_ldf st + 1) (ex_intro _ r (conj Hr Fr))). lia. }
-    { exact Hnv. }
-    rewrite EB. exists (blk :: bl), st'. rewrite <- app_assoc. split; [reflexivity|]. split; [exact D'|].
-    unfold blk_obs in OB. inversion OB as [[OB1 OB2 OB3]].
-    split; [|split; [|split; [exact RR | exact CC]]].
-    + cbn [map]. unfold fa at 1. rewrite OB1, OB2. constructor; [exact Hd | exact SG].
-    + intros b [<-|Hb]; [rewrite OB3, OB2; auto | apply BO; exact Hb].
+    destruct (ofd_sim (st_with st c1 el1) x (l_ldf st + 1) C1 (roots_in _ _ _ _ _ _ Ix) ltac:(lia)) as [blk [OB [SL EO]]].
+    unfold blk_obs in OB. pose proof (f_equal (fun p => fst (fst p)) OB) as OB1. pose proof (f_equal (fun p => snd (fst p)) OB) as OB2.
+    pose proof (f_equal snd OB) as OB3. cbn [fst snd] in OB1, OB2, OB3.
+    destruct (sf (l_ldf st + 1)) as [nv'|] eqn:Sf.
+    + (* the block seals the epoch *)
+      rewrite EO. exists true, [blk], (sealed_state nv' (l_ctr st)), (l_ldf st + 1). split; [reflexivity|].
+      split; [cbn [map]; unfold fa; rewrite OB1, OB2; constructor; [exact Hd | constructor]|].
+      split; [intros b [<-|[]]; rewrite OB3, OB2, OB1, Sf; auto|].
+      split; [unfold Ends; right; exists nv'; split; [lia|]; split; [intros f Hf; lia | split; [exact Sf | reflexivity]]|].
+      split; [discriminate|]. intros (_ & _ & Ee). cbn [sealed_state l_epoch] in Ee. lia.
+    + destruct EO as [conf' EO]. rewrite EO.
+      set (st2 := decided_state (st_with st c1 el1) (l_ldf st + 1) conf').
+      assert (E2 : ES st2 (fun _ => False)) by (apply (ES_decided (st_with st c1 el1) conf' C1 CI1 Hnv)).
+      destruct (IH st2 _ (bl0 ++ [blk]) E2) as [r [bl [st' [L [EB [SG [BO [EN RF]]]]]]]].
+      { change (l_roots st2) with (l_roots st). change (l_ldf st2) with (l_ldf st + 1).
+        destruct (root_at_frame st x (l_ldf st + 1) (es_core _ _ E) Ix) as [r [Hr Fr]].
+        pose proof (cnt_from_step (l_roots st) (l_ldf st + 1) (ex_intro _ r (conj Hr Fr))). lia. }
+      { exact Hnv. }
+      rewrite EB. exists r, (blk :: bl), st', L. rewrite <- app_assoc. split; [reflexivity|].
+      split; [cbn [map]; unfold fa at 1; rewrite OB1, OB2; constructor; [exact Hd | exact SG]|].
+      split; [intros b [<-|Hb]; [rewrite OB3, OB2, OB1, Sf; auto | apply BO; exact Hb]|].
+      split; [apply (Ends_shift st st2 L st'); auto|exact RF].
 Qed.
 
 (* ---------- handleElection ---------- *)
 Lemma handle_sim e ne : a_id e = nd_id ne -> a_creator e = vid vals (nd_cr ne) -> a_frame e = nd_fr ne -> In ne T ->
   forall fuel st S f bl0, ES st S -> nd_spf ne < f -> (N.to_nat (nd_fr ne + 1 - f) < fuel)%nat ->
     (forall m g, l_ldf st + 1 < g -> In m (rts g) -> (m <> ne \/ g < f) -> S (slot m g)) ->
-    exists bl st', handle_election cap eb fuel es st e f bl0 = (Ok tt, bl0 ++ bl, st') /\ Done st' /\
-      Seg (l_ldf st) (map fa bl) (l_ldf st') /\ blocks_ok bl /\ l_roots st' = l_roots st /\ l_ctr st' = l_ctr st.
+    exists bl st' L, handle_election cap eb fuel es st e f bl0 = (Ok tt, bl0 ++ bl, st') /\
+      Seg (l_ldf st) (map fa bl) L /\ blocks_ok bl /\ Ends st L st'.
 Proof.
   intros Eid Ecr Efr HneT.
   assert (Hnv : (0 < nv)%nat) by (pose proof (cr_lt vals T ne HwfT HneT); lia).
   induction fuel as [|fu IH]; intros st S f bl0 E Hf Hfuel Hpre; [lia|]. cbn [handle_election].
   rewrite Efr. destruct (nd_fr ne <? f) eqn:Lf.
-  - apply N.ltb_lt in Lf. exists [], st. rewrite app_nil_r. split; [reflexivity|]. split.
-    + exists S. split; [exact E|]. intros m g Hg Hm. apply Hpre; auto.
-      destruct (N.eq_dec (nd_id m) (nd_id ne)) as [EQ|NE0];
-        [apply (wf_inj vals T HwfT m ne (roots_in _ _ _ _ _ _ Hm) HneT) in EQ; subst m; right
-        | left; intros ->; apply NE0; reflexivity].
-      unfold roots_at in Hm. apply filter_In in Hm as [_ Hm]. unfold is_root_at in Hm. lia.
-    + split; [constructor|]. split; [intros b []|]. split; reflexivity.
+  - apply N.ltb_lt in Lf. exists [], st, (l_ldf st). rewrite app_nil_r. split; [reflexivity|]. split; [constructor|].
+    split; [intros b []|]. unfold Ends. left. split; [|split; [reflexivity|]; split; [intros g Hg; lia | split; reflexivity]].
+    exists S. split; [exact E|]. intros m g Hg Hm. apply Hpre; auto.
+    destruct (N.eq_dec (nd_id m) (nd_id ne)) as [EQ|NE0];
+      [apply (wf_inj vals T HwfT m ne (roots_in _ _ _ _ _ _ Hm) HneT) in EQ; subst m; right
+      | left; intros ->; apply NE0; reflexivity].
+    unfold roots_at in Hm. apply filter_In in Hm as [_ Hm]. unfold is_root_at in Hm. lia.
   - apply N.ltb_ge in Lf. rewrite Ecr, Eid. change (f, vid vals (nd_cr ne), nd_id ne) with (slot ne f).
     assert (Hroot : In ne (rts f)).
     { unfold roots_at. apply filter_In. split; [exact HneT|]. unfold is_root_at. lia. }
-    destruct E as [C CI I N].
+    destruct E as [C CI I N0].
     assert (F0 : 1 <= l_ldf st + 1) by lia.
-    destruct (process_root_sim cap lam vals Hvals T HwfT Hff (l_ldf st + 1) F0 st es Dr k S ne f C CI NT I N Hroot)
+    destruct (process_root_sim cap ep lam vals Hvals T HwfT Hff (l_ldf st + 1) F0 st es Dr k S ne f C CI NT I N0 Hroot)
       as [res [c1 [el1 [EP [CI1 [I1 [ER Sh]]]]]]].
     { intros H2 m Hm _. apply Hpre; [lia | exact Hm | right; lia]. }
     fold (st_with st c1 el1) in EP, CI1. rewrite EP.
     destruct Sh as [->|[a ->]].
     + assert (E1 : ES (st_with st c1 el1) (fun r => S r \/ r = slot ne f)).
       { apply (ES_with st c1 el1 S); [constructor; auto | exact CI1 | exact I1 | symmetry; exact ER]. }
-      destruct (IH (st_with st c1 el1) _ (f + 1) bl0 E1) as [bl [st' R]]; [lia | lia | | exists bl, st'; exact R].
+      destruct (IH (st_with st c1 el1) _ (f + 1) bl0 E1) as [bl [st' [L R]]]; [lia | lia | | exists bl, st', L; exact R].
       change (l_ldf (st_with st c1 el1)) with (l_ldf st). intros m g Hg Hm Hor.
       destruct (N.eq_dec g f) as [->|NE].
       * destruct Hor as [Hor|Hor]; [left; apply Hpre; auto | ].
@@ -321,32 +377,45 @@ Proof.
       { apply (choose_some_decide vals Hvals T HwfT Hff (l_ldf st + 1) el1 _ a I1). symmetry. exact ER. }
       destruct (atropos_in _ _ Hd) as [x [Ix Ex]]. subst a.
       assert (C1 : Core (st_with st c1 el1) es T Dr T) by (unfold st_with; apply Core_el, Core_fcc, C).
-      destruct (ofd_sim (st_with st c1 el1) x (l_ldf st + 1) C1 (roots_in _ _ _ _ _ _ Ix) ltac:(lia)) as [blk [conf' [EO [OB SL]]]].
-      rewrite EO.
-      set (st2 := decided_state (st_with st c1 el1) (l_ldf st + 1) conf').
-      assert (E2 : ES st2 (fun _ => False)).
-      { apply (ES_decided (st_with st c1 el1) conf' C1 CI1 Hnv). }
-      destruct (boot_sim (roots_fuel st2) st2 _ (bl0 ++ [blk]) E2) as [bl1 [st3 [EB [[S3 [E3 AV3]] [SG1 [BO1 [RR1 CC1]]]]]]].
-      { unfold roots_fuel. pose proof (cnt_from_le (l_roots st2) (l_ldf st2 + 1)). lia. }
-      { exact Hnv. }
-      rewrite EB.
-      destruct (IH st3 S3 (f + 1) ((bl0 ++ [blk]) ++ bl1) E3) as [bl2 [st' [EH [D' [SG2 [BO2 [RR2 CC2]]]]]]]; [lia | lia | |].
-      { intros m g Hg Hm _. apply AV3; auto. }
-      rewrite EH. exists (blk :: bl1 ++ bl2), st'.
-      split; [rewrite <- !app_assoc; reflexivity|]. split; [exact D'|].
-      unfold blk_obs in OB. inversion OB as [[OB1 OB2 OB3]].
-      split; [|split; [|split; [rewrite RR2, RR1; reflexivity | rewrite CC2, CC1; reflexivity]]].
-      * cbn [map]. unfold fa at 1. rewrite OB1, OB2. constructor; [exact Hd|]. rewrite map_app.
-        eapply Seg_app; [exact SG1 | exact SG2].
-      * intros b [<-|Hb]; [rewrite OB3, OB2; auto|]. apply in_app_or in Hb as [Hb|Hb]; [apply BO1 | apply BO2]; exact Hb.
-Qed.
-
-(* when every slot has voted and no Atropos is chosen, the reference has none either *)
-Lemma Done_undecided st : Done st -> forall a, decideT (l_ldf st + 1) <> Atropos a.
-Proof.
-  intros [S [[C CI I Nn] AV]].
-  assert (F0 : 1 <= l_ldf st + 1) by lia.
-  apply (choose_none_undecided vals Hvals T HwfT Hff (l_ldf st + 1) F0 (l_el st) S I Nn). exact AV.
+      destruct (ofd_sim (st_with st c1 el1) x (l_ldf st + 1) C1 (roots_in _ _ _ _ _ _ Ix) ltac:(lia)) as [blk [OB [SL EO]]].
+      unfold blk_obs in OB. pose proof (f_equal (fun p => fst (fst p)) OB) as OB1. pose proof (f_equal (fun p => snd (fst p)) OB) as OB2.
+    pose proof (f_equal snd OB) as OB3. cbn [fst snd] in OB1, OB2, OB3.
+      destruct (sf (l_ldf st + 1)) as [nv'|] eqn:Sf.
+      * rewrite EO. exists [blk], (sealed_state nv' (l_ctr st)), (l_ldf st + 1). split; [reflexivity|].
+        split; [cbn [map]; unfold fa; rewrite OB1, OB2; constructor; [exact Hd | constructor]|].
+        split; [intros b [<-|[]]; rewrite OB3, OB2, OB1, Sf; auto|].
+        unfold Ends. right. exists nv'. split; [lia|]. split; [intros g Hg; lia | split; [exact Sf | reflexivity]].
+      * destruct EO as [conf' EO]. rewrite EO.
+        set (st2 := decided_state (st_with st c1 el1) (l_ldf st + 1) conf').
+        assert (E2 : ES st2 (fun _ => False)) by (apply (ES_decided (st_with st c1 el1) conf' C1 CI1 Hnv)).
+        destruct (boot_sim (roots_fuel st2) st2 _ (bl0 ++ [blk]) E2) as [r [bl1 [st3 [L1 [EB [SG1 [BO1 [EN1 RF1]]]]]]]].
+        { unfold roots_fuel. pose proof (cnt_from_le (l_roots st2) (l_ldf st2 + 1)). lia. }
+        { exact Hnv. }
+        rewrite EB.
+        assert (Hb1 : blocks_ok (blk :: bl1)).
+        { intros b [<-|Hb]; [rewrite OB3, OB2, OB1, Sf; auto | apply BO1; exact Hb]. }
+        destruct r.
+        -- (* sealed inside bootstrapElection *)
+           exists (blk :: bl1), st3, L1. rewrite <- app_assoc. split; [reflexivity|].
+           split; [cbn [map]; unfold fa at 1; rewrite OB1, OB2; constructor; [exact Hd | exact SG1]|].
+           split; [exact Hb1|]. apply (Ends_shift st st2 L1 st3); auto.
+        -- destruct (proj1 RF1 eq_refl) as [[S3 [E3 AV3]] [EL1 _]].
+           assert (EN1' : l_roots st3 = l_roots st2 /\ l_ctr st3 = l_ctr st2 /\ NoSeal (l_ldf st2) L1).
+           { destruct EN1 as [(_ & _ & NS & R & Cc)|(nv' & _ & _ & _ & ES')]; [auto|].
+             exfalso. destruct E3 as [C3 _ _ _]. pose proof (co_epoch _ _ _ _ _ _ _ _ C3) as Ee. rewrite ES' in Ee. cbn [sealed_state l_epoch] in Ee. lia. }
+           destruct EN1' as (RR1 & CC1 & NS1).
+           destruct (IH st3 S3 (f + 1) ((bl0 ++ [blk]) ++ bl1) E3) as [bl2 [st' [L2 [EH [SG2 [BO2 EN2]]]]]]; [lia | lia | |].
+           { intros m g Hg Hm _. apply AV3; auto. }
+           rewrite EH. exists (blk :: bl1 ++ bl2), st', L2.
+           split; [rewrite <- !app_assoc; reflexivity|].
+           split; [cbn [map]; unfold fa at 1; rewrite OB1, OB2; constructor; [exact Hd|]; rewrite map_app; eapply Seg_app; [exact SG1 | rewrite EL1; exact SG2]|].
+           split; [intros b Hb; change (blk :: bl1 ++ bl2) with ((blk :: bl1) ++ bl2) in Hb; apply in_app_or in Hb as [Hb|Hb]; [apply Hb1 | apply BO2]; exact Hb|].
+           apply (Ends_shift st st2 L2 st'); auto.
+           destruct EN2 as [(D & EL & NS & R & Cc)|(nv' & Lt & NS & Sf' & ES')].
+           ++ unfold Ends. left. split; [exact D|]. split; [exact EL|]. split; [|split; congruence].
+              intros g Hg. destruct (N.le_gt_cases g L1) as [Le|Gt]; [apply NS1; lia | apply NS; lia].
+           ++ pose proof (Seg_le _ _ _ SG1) as LE1. unfold Ends. right. exists nv'. split; [lia|]. split; [|split; [exact Sf' | rewrite ES', CC1; reflexivity]].
+              intros g Hg. destruct (N.le_gt_cases g L1) as [Le|Gt]; [apply NS1; lia | apply NS; lia].
 Qed.
 
 End Elect.
